@@ -20,7 +20,12 @@ import (
 
 var c04Positions = []string{"properties", "items", "items-tuple", "allOf", "anyOf", "oneOf", "not", "additionalProperties", "patternProperties", "dependencies", "additionalItems", "definitions"}
 
-var c04IDVariants = []string{"none", "absolute", "relfile", "reldir", "fragment", "absdir", "updir"}
+var c04IDVariants = []string{"none", "absolute", "relfile", "reldir", "fragment", "absdir", "updir", "byid", "byid-uppercase-host", "byid-default-port"}
+
+// the "byid" variants: every node names itself with an absolute id and the nodes refer to each other by a file name read in the scope of
+// that id; the documents at those ids are the nodes themselves. The authority of the id is written in normal form, with upper-case
+// letters, or with the default port of its scheme.
+var c04ByIDBase = map[string]string{"byid": "http://ids.example/base/", "byid-uppercase-host": "http://IDS.Example/base/", "byid-default-port": "http://ids.example:80/base/"}
 
 func c04ID(variant string, node int) string {
 	switch variant {
@@ -36,6 +41,9 @@ func c04ID(variant string, node int) string {
 		return "/abs/dir/"
 	case "updir":
 		return "../up/"
+	}
+	if b, ok := c04ByIDBase[variant]; ok {
+		return fmt.Sprintf("%ss%d.json", b, node)
 	}
 	return ""
 }
@@ -105,6 +113,12 @@ func (g c04Graph) build() *gen.World {
 		to := docOf(toNode)
 		toks := []string{"definitions", fmt.Sprintf("d%d", toNode)}
 		form := "fragment"
+		if _, byID := c04ByIDBase[g.idVar]; byID && fromDoc != "" {
+			return fmt.Sprintf("s%d.json", toNode)
+		}
+		if fromDoc == "" {
+			fromDoc = gen.RootURL
+		}
 		if to != fromDoc {
 			form = []string{"rel", "abs", "rootrel"}[(g.posSeed+toNode)%3]
 		}
@@ -117,8 +131,12 @@ func (g c04Graph) build() *gen.World {
 	for node := 0; node < g.n; node++ {
 		doc := docOf(node)
 		s := map[string]interface{}{"title": fmt.Sprintf("n%d", node)}
-		if id := c04ID(g.idVar, node); id != "" && (node == 0 || g.posSeed%2 == 0) {
+		_, byID := c04ByIDBase[g.idVar]
+		if id := c04ID(g.idVar, node); id != "" && (node == 0 || g.posSeed%2 == 0 || byID) {
 			s["id"] = id
+		}
+		if byID {
+			w.Docs[fmt.Sprintf("http://ids.example/base/s%d.json", node)] = s // served at the normal form of the id
 		}
 		for k := 0; k < 2; k++ {
 			t := g.slots[node*2+k]
@@ -146,7 +164,7 @@ func (g c04Graph) build() *gen.World {
 			otherDefs[fmt.Sprintf("d%d", node)] = s
 		}
 	}
-	sref := func(node int) interface{} { return map[string]interface{}{"$ref": ref(gen.RootURL, node%g.n)} }
+	sref := func(node int) interface{} { return map[string]interface{}{"$ref": ref("", node%g.n)} } // from outside the nodes: always by location
 	// parameter
 	params := map[string]interface{}{}
 	switch g.pVar {
